@@ -7,6 +7,7 @@ from the source on every run); the functions below only give them Rust's semanti
 -/
 import EspadaVerif.Model.Basic
 import EspadaVerif.Gen.Rank
+import EspadaVerif.Gen.RankSucc
 import EspadaVerif.Gen.Suit
 import EspadaVerif.Gen.CardBits
 import EspadaVerif.Gen.Ranges
